@@ -605,7 +605,7 @@ func C14(c *Ctx) {
 	w, r := c.W, c.R
 	r.Explanation = "(A10) abort-source inventory on the block-level roots (BeginBlock, EndBlock, registered invariants) over the repo call graph: every explicit panic and every call of a panicking SDK API reachable from them is enumerated; each must be discharged by its class — lookup of an id read from the queue section it iterates (found / status panics, consistent by C03's writer rules), error of a setter that fails only on an invalid constant, permission panics excluded by the evaluated maccPerms (enterprise holds Minter and Staking) — or appear in the reviewed table keyed by function, kind and ordinal; anything else is a violation. " +
 		"Denomination provenance: a Coin.Add/Sub on a block-level path whose operands take their denomination from different sources (module parameter vs stored record) is flagged. (b) handlers and ante decorators keep all state in the transaction-scoped stores: C01's out-of-band-state rule restricted to MSG ∪ ANTE roots, so baseapp's rollback covers everything a failed transaction did. (c) error discipline (A8): on every transaction, block and genesis path the error result of a call that can change state (store write/delete or bank move, directly or through in-scope callees) has at least one use — a discarded error would let a handler commit the remaining steps of a half-failed operation, since baseapp rolls back only on a returned error. Atomicity and panic recovery of runTx are trusted; reachability of reviewed panics over all histories is not decided."
-	r.Rules = []string{"A10.block-panics", "A2.panic-class", "A10.denom-provenance", "A5.module-permissions", "A6.tx-scoped-state", "A6.no-recover", "A8.error-propagation", "A10.implicit-panic", "A3.queue-membership", "A5.blocked-addresses", "A3.tally-pairing", "A3.completion-pairing", "A6.one-context"}
+	r.Rules = []string{"A10.block-panics", "A2.panic-class", "A10.denom-provenance", "A5.module-permissions", "A6.tx-scoped-state", "A6.no-recover", "A8.error-propagation", "A10.implicit-panic", "A3.queue-membership", "A5.blocked-addresses", "A3.tally-pairing", "A3.completion-pairing", "A6.one-context", "TS.status-transition", "A3.topup-pairing", "A3.claim-pairing", "A3.cancel-pairing", "A3.unlock-pairing", "A3.counter-pairs"}
 	// the begin-blocker panics on a queued order in another status: an id reaches a queue only with that status
 	queueMembership(c)
 	r.Trusted = []string{"baseapp runTx: cache-wrapped stores, panic recovery, all-or-nothing message execution", "reasons in the reviewed table"}
@@ -679,6 +679,12 @@ func C14(c *Ctx) {
 	blockedAddresses(c, nil, "gov")
 	// ... and no order stays on a queue whose status it has left (the next block's step panics on it, at every block)
 	statusPairing(c)
+	statusTypestate(c)
+	// a message that reports success has done all of its steps (a failed step is a failed message, which baseapp rolls back)
+	topUpPairing(c)
+	claimPairing(c)
+	cancelPairing(c)
+	unlockPairing(c)
 	// all-or-nothing inside one operation: a function that branches the state runs every step of the operation on the branch
 	r.Analysed["functions_branching_state"] = oneContext(c, []string{"MSG", "ANTE", "BEGIN", "END"}, ir.Modules...)
 	// (b) tx-scoped state
